@@ -4,9 +4,10 @@
 set -e
 cd "$(dirname "$0")"
 export GOFLAGS=-mod=mod GOPROXY=off GOSUMDB=off GOTOOLCHAIN=local
-cp /repo/go.sum sim/go.sum
 out=$(mktemp -d /tmp/verif-setup.XXXXXX)
 trap 'rm -rf "$out"' EXIT
-(cd sim && go build -tags verif -o "$out/simcheck" .)
+cp sim/go.mod "$out/go.mod"
+cp /repo/go.sum "$out/go.sum"
+(cd sim && go build -modfile="$out/go.mod" -tags verif -o "$out/simcheck" .)
 (cd /repo && go build -o "$out/jqawk" .)
 "$out/simcheck" version
